@@ -69,9 +69,10 @@ SetOk(doc, path, sub, post, exist, err) ==
        IF parN.st # "found" \/ parN.nk # "val" \/ parN.v.k # "message" THEN V(err /\ post = doc, "SetInnerAbsent")
        ELSE LET pm == parN.v  np == PLookup(post, s.par)  num == s.rest[1].n  i == FldIdx(pm.f, num) IN
             IF np.st # "found" \/ np.nk # "val" \/ np.v.k # "message" THEN V(FALSE, "SetInsert")
-            ELSE IF Len(s.rest) = 1 /\ IsZeroScalar(sub) THEN V(~err /\ ~exist /\ post = doc, "SetInsertZero")
+            ELSE IF Len(s.rest) = 1 /\ IsZeroScalar(sub) THEN V(~err /\ post = doc, "SetInsertZero")
             ELSE IF Len(s.rest) = 1 THEN          \* absent singular field
-                 V(~err /\ ~exist /\ np.v.f = InsertField(pm.f, PFld(num, "one", <<PPair(PNone, sub)>>)) /\ post = PutMsg(doc, s.par, np.v), "SetInsertField")
+                 \* (a singular scalar may be on the wire holding zero - absent for the reference - so the exist flag is not fixed for scalars)
+                 V(~err /\ (sub.k = "message" => ~exist) /\ np.v.f = InsertField(pm.f, PFld(num, "one", <<PPair(PNone, sub)>>)) /\ post = PutMsg(doc, s.par, np.v), "SetInsertField")
             ELSE LET it == s.rest[2]  j == FldIdx(np.v.f, num) IN
                  IF j = 0 THEN V(FALSE, "SetInsert")
                  ELSE IF it.k = "idx" THEN
@@ -88,6 +89,32 @@ SetOk(doc, path, sub, post, exist, err) ==
                         "SetInsertKey")
   ELSE V(err /\ post = doc, "SetBadPath")
 
+\* ---- constructive successor (a new list element is appended at the end) ----
+PApply(m, o) ==
+  LET r == PLookup(m, o.path) IN
+  IF o.op = "Set" THEN
+     IF r.st = "found" THEN (IF SingularZero(o.path, o.sub) THEN LET s == Split(o.path) IN PutMsg(m, s.par, DelIn(MsgAt(m, s.par), s.rest)) ELSE PPutV(m, o.path, o.sub))
+     ELSE LET s == Split(o.path)  pm == MsgAt(m, s.par)  num == s.rest[1].n  i == FldIdx(pm.f, num) IN
+          IF PLookup(m, s.par).st # "found" THEN m
+          ELSE IF Len(s.rest) = 1 /\ IsZeroScalar(o.sub) THEN m
+          ELSE IF Len(s.rest) = 1 THEN PutMsg(m, s.par, [pm EXCEPT !.f = InsertField(pm.f, PFld(num, "one", <<PPair(PNone, o.sub)>>))])
+          ELSE IF s.rest[2].k = "idx" THEN
+               PutMsg(m, s.par, IF i = 0 THEN [pm EXCEPT !.f = InsertField(pm.f, PFld(num, "rep", <<PPair(PNone, o.sub)>>))]
+                                ELSE [pm EXCEPT !.f[i].e = Append(@, PPair(PNone, o.sub))])
+          ELSE LET kv == IF s.rest[2].k = "str" THEN [k |-> "string", b |-> s.rest[2].b, f |-> <<>>]
+                         ELSE [k |-> IF i = 0 THEN "int64" ELSE pm.f[i].e[1].k.k, b |-> s.rest[2].b, f |-> <<>>]
+                   en == PPair(kv, o.sub) IN
+               PutMsg(m, s.par, IF i = 0 THEN [pm EXCEPT !.f = InsertField(pm.f, PFld(num, "map", <<en>>))]
+                                ELSE [pm EXCEPT !.f[i].e = InsertEntry(@, en)])
+  ELSE IF r.st = "found" THEN LET s == Split(o.path) IN PutMsg(m, s.par, DelIn(MsgAt(m, s.par), s.rest)) ELSE m
+RECURSIVE PApplyMany(_, _, _)
+PApplyMany(m, par, many) == IF many = <<>> THEN m
+                            ELSE PApplyMany(PApply(m, [op |-> "Set", path |-> Append(par, many[1].it), sub |-> many[1].sub]), par, Tail(many))
+\* set-many: children of one parent node set at once = the sequential composition (children are distinct)
+SetManyOk(doc, par, many, post, err) ==
+  LET pn == PLookup(doc, par) IN
+  IF pn.st # "found" \/ many = <<>> THEN V(TRUE, "Unspecified")
+  ELSE V(~err /\ post = PApplyMany(doc, par, many), "SetMany")
 UnsetOk(doc, path, post, err) ==
   LET r == PLookup(doc, path) IN
   IF path = <<>> THEN V(TRUE, "Unspecified")
